@@ -317,6 +317,9 @@ func (i *interpreter) urlString(fr *frame, p *value) value {
 	if u, ok := i.nativeURL(p); ok {
 		return u.String()
 	}
+	if s, ok := i.urlStringOnlyQuerySymbolic(p); ok {
+		return s
+	}
 	m := i.m
 	f := i.urlFields(p)
 	org := m.urlOrigin[p]
@@ -584,4 +587,33 @@ func (m *Machine) structuralSplitLoose(s *Term, sep string) ([]*Term, bool) {
 	}
 	out = append(out, mkConcat(cur...))
 	return out, true
+}
+
+// urlStringOnlyQuerySymbolic: String() of a URL whose fields are all concrete except RawQuery and which uses a
+// feature the structured model does not represent (a path whose escaped form differs from it, user info, an opaque part,
+// an omitted host): everything but the query is rendered by the real net/url, the query is emitted verbatim
+// after "?" as (*URL).String does.
+func (i *interpreter) urlStringOnlyQuerySymbolic(p *value) (value, bool) {
+	rq := i.fieldOf(p, "net/url", "URL", "RawQuery")
+	q, isTerm := (*rq).(*Term)
+	if !isTerm {
+		return nil, false
+	}
+	*rq = ""
+	u, ok := i.nativeURL(p)
+	*rq = q
+	if !ok || u.ForceQuery {
+		return nil, false
+	}
+	if u.EscapedPath() == u.Path && u.User == nil && u.Opaque == "" && !u.OmitHost {
+		return nil, false
+	}
+	frag := ""
+	if f := u.EscapedFragment(); f != "" {
+		frag = "#" + f
+	}
+	u.Fragment, u.RawFragment = "", ""
+	head := mkStr(u.String())
+	query := mkIte(mkEq(q, mkStr("")), mkStr(""), mkConcat(mkStr("?"), q))
+	return strVal(mkConcat(head, query, mkStr(frag))), true
 }
